@@ -24,6 +24,8 @@ inductive V where
   | checker (k : CheckerKind)    -- the guard's checker object
   | storage (a : StoreAns)       -- the guard's storage, as it answers `find_for_inquiry` for this inquiry
   | lazySeq (xs : List V) (failAt : Nat)   -- an iterable that raises before yielding item `failAt`
+  | pattern (r : Re)             -- a compiled regular expression
+  | attrs (kvs : List (List Char × AttrVal))   -- an attribute dictionary element of a rule-based policy
 
 instance : Inhabited V := ⟨.py .none⟩
 
@@ -42,6 +44,8 @@ def truth : V → Bool
   | .checker _ => true
   | .storage _ => true
   | .lazySeq _ _ => true
+  | .pattern _ => true
+  | .attrs kvs => !kvs.isEmpty
 
 /-- the answer of `satisfied` as the checkers see it: its truthiness, or the exception -/
 def toR (m : M) : R := m.map truth
@@ -257,7 +261,7 @@ def methSatisfied (r w q : M) : M :=
 def elemV : Elem → V
   | .str s => .py (.str s)
   | .rule r => .rule r
-  | .attrs _ => .other
+  | .attrs kvs => .attrs kvs
 
 /-- `getattr(policy, field, default)` with a computed field name -/
 def getattrDynM (a name dflt : M) : M :=
@@ -372,5 +376,97 @@ def filterCompM (a : M) (f : V → M) : M :=
 
 /-- `try: BODY  except Exception: HANDLER` where both end the function -/
 def catchAllM (body handler : M) : M := match body with | .error _ => handler | r => r
+
+/-! ### the regex checker: `compile_regex` behind the compile cache, `re.fullmatch` -/
+
+/-- `try: pattern = self.compile(item, start_tag, end_tag)  except InvalidPatternError: <handler>` followed by the rest
+of the block.  `self.compile` is `compile_regex` behind an LRU cache (transparent: C03 `compile_cache_transparent`):
+unbalanced tags raise `InvalidPatternError` (the handler), a segment that is not a regular expression raises `re.error`
+(propagates), otherwise the pattern object goes to the rest of the block. -/
+def tryCompileM (item stag etag : M) (onInvalid : M) (rest : V → M) : M :=
+  bindM item fun i => bindM stag fun s => bindM etag fun t => match i, s, t with
+    | .py (.str e), .py (.str [sc]), .py (.str [tc]) =>
+      (match TagParser.scan sc tc e with
+       | Option.none => onInvalid
+       | some ps => (match piecesRe ps with
+         | .ok r _ => rest (.pattern r)
+         | _ => raiseM))
+    | _, _, _ => raiseM
+
+/-- `re.fullmatch(pattern, value)`: a match object (true) or `None`; `TypeError` for a value that is not a string -/
+def reFullmatchM (pat w : M) : M :=
+  bindM pat fun p => bindM w fun w => match p, w with
+    | .pattern r, .py (.str cs) => ofBool (r.accepts cs)
+    | _, _ => raiseM
+
+/-! ### the rules checker: attribute dictionaries, loops that carry variables -/
+
+/-- a rule stored in an attribute dictionary or a context; an entry without `satisfied` is some other object -/
+def attrValV : AttrVal → V
+  | .rule r => .rule r
+  | .junk => .other
+
+/-- `type(x) == dict` (exact type) -/
+def typeIsDictM (a : M) : M :=
+  bindM a fun x => ofBool (match x with | .attrs _ => true | .py (.dict _) => true | _ => false)
+
+/-- `d.items()` of an attribute dictionary: (key, rule) pairs in order -/
+def attrsItemsM (a : M) : M :=
+  bindM a fun x => match x with
+    | .attrs kvs => .ok (.seq (kvs.map fun kv => V.seq [.py (.str kv.1), attrValV kv.2]))
+    | _ => raiseM
+
+/-- `callable(getattr(x, 'satisfied', ''))` -/
+def hasSatisfiedM (a : M) : M :=
+  bindM a fun x => ofBool (match x with | .rule _ => true | _ => false)
+
+/-- `a + b` on integers -/
+def addM (a b : M) : M :=
+  bindM a fun x => bindM b fun y => match x, y with
+    | .py (.int m), .py (.int n) => .ok (.py (.int (m + n)))
+    | _, _ => raiseM
+
+/-- the i-th variable of the state a loop carries -/
+def stGet (s : List V) (i : Nat) : V := s.getD i (.py .none)
+
+/-- a `for` loop whose body assigns variables that live on after the loop, and / or leaves it by `break`: the state is
+the list of those variables.  The body of one iteration gets the state, what comes after the iteration (the next one,
+finally the code after the loop) and what comes after a `break` (the code after the loop), both awaiting the state. -/
+def loopS : List V → (V → List V → (List V → M) → (List V → M) → M) → List V → (List V → M) → M
+  | [], _, st, rest => rest st
+  | x :: xs, body, st, rest => body x st (fun st' => loopS xs body st' rest) rest
+
+def pyForS (a : M) (body : V → List V → (List V → M) → (List V → M) → M) (st : List V) (rest : List V → M) : M :=
+  bindM a fun x => match items x with
+    | some xs => loopS xs body st rest
+    | Option.none => raiseM
+
+/-! ### the tag parser: `enumerate`, integer arithmetic, `list.append` -/
+
+/-- the (index, item) pairs of `enumerate(xs)` from index `i` on -/
+def enumV : Nat → List V → List V
+  | _, [] => []
+  | i, x :: xs => V.seq [.py (.int i), x] :: enumV (i + 1) xs
+
+def enumerateM (a : M) : M :=
+  bindM a fun x => match items x with
+    | some xs => .ok (.seq (enumV 0 xs))
+    | Option.none => raiseM
+
+/-- `a - b` on integers -/
+def subM (a b : M) : M :=
+  bindM a fun x => bindM b fun y => match x, y with
+    | .py (.int m), .py (.int n) => .ok (.py (.int (m - n)))
+    | _, _ => raiseM
+
+/-- `xs.append(e)` on a local list, as the new value of `xs` -/
+def appendM (a e : M) : M :=
+  bindM a fun x => bindM e fun y => match x, y with
+    | .py (.list xs), .py v => .ok (.py (.list (xs ++ [v])))
+    | .seq xs, v => .ok (.seq (xs ++ [v]))
+    | _, _ => raiseM
+
+/-- the empty list literal as a value list (a list that will hold plain values) -/
+def cEmptyPyList : M := .ok (.py (.list []))
 
 end Vakt.PyPrim
